@@ -42,7 +42,7 @@ Checks(e) ==
      Ck("C01", "size the message reports for itself = number of bytes produced",
         \A i \in TopIdx(e), j \in TopIdx(e) : (GotLen(e, i) /\ GotBytes(e, j)) => r[i].len = Len(r[j].bytes)),
      Ck("C02", "a walker using only declared lengths, alignment, zero padding and legal codes consumes the message exactly",
-        HasSpec(e) => \A i \in TopIdx(e) : GotBytes(e, i) => WalkMsg(r[i].bytes)),
+        \A i \in TopIdx(e) : GotBytes(e, i) => WalkMsg(r[i].bytes)),
      Ck("C03", "encoding = the specified layout with the supplied values",
         HasSpec(e) => \A i \in Idx(e) : GotBytes(e, i) => r[i].bytes = Enc(TreeOf(e, i))),
      Ck("C06", "reported size = encoded size",
